@@ -19,6 +19,8 @@ Conventions
   minimum is the sortedness invariant proved in Lemmas/Timer.lean.
 * Rust panics are explicit results (`InsertRes.panic`, `TickRes.panic`, `none` of `intervalAt`).
 -/
+import Compio.Gen.IntervalTick
+
 namespace Compio.Timer
 
 /-- `u64::MAX` -/
@@ -266,5 +268,86 @@ def Interval.tickDeadline (iv : Interval) (now : Nat) : TickRes :=
 
 /-- state after the awaited sleep has completed -/
 def Interval.ticked (iv : Interval) : Interval := { iv with firstTicked := true }
+
+/-! ### `tick` as the coroutine it is
+
+`Interval::tick` is an `async fn`; the future it returns can be dropped while it is suspended at its
+single `.await` (a `timeout` around it elapses, it is the losing branch of a `select`, its task is
+cancelled). What such a cancelled call leaves behind in `self` is decided by the statements that
+come before the await. The statement kinds of the two branches, in source order, are regenerated
+from the source by the extractor (`Compio.Gen.IntervalTick.firstBranch` / `periodicBranch`); the
+functions below interpret them. -/
+
+open Compio.Gen.IntervalTick in
+/-- effect on `self` of a list of statements -/
+def Interval.applyStmts (iv : Interval) : List Stmt → Interval
+  | [] => iv
+  | .setFirstTicked :: rest => Interval.applyStmts { iv with firstTicked := true } rest
+  | _ :: rest => Interval.applyStmts iv rest
+
+open Compio.Gen.IntervalTick in
+def stmtsBeforeAwait (l : List Stmt) : List Stmt := l.takeWhile (· ≠ .await)
+
+open Compio.Gen.IntervalTick in
+def stmtsAfterAwait (l : List Stmt) : List Stmt := (l.dropWhile (· ≠ .await)).drop 1
+
+/-- a suspended `tick()` future: which branch it is in and the instant it will return -/
+inductive TickFut where
+  | first                    -- returns `self.start` (read after the await)
+  | periodic (next : Nat)
+deriving DecidableEq, Repr
+
+/-- `tick()` from the call up to its `.await`: the new state of the interval, the suspended future and
+the instant handed to `sleep_until`. `none` = panic. Dropping the future leaves the interval in
+exactly this state. -/
+def Interval.tickBegin (iv : Interval) (now : Nat) : Option (Interval × TickFut × Nat) :=
+  if !iv.firstTicked then
+    some (iv.applyStmts (stmtsBeforeAwait Compio.Gen.IntervalTick.firstBranch), .first, iv.start)
+  else
+    match iv.tickDeadline now with
+    | .panic => none
+    | .deadline d =>
+      some (iv.applyStmts (stmtsBeforeAwait Compio.Gen.IntervalTick.periodicBranch), .periodic d, d)
+
+/-- the rest of `tick()` once the awaited sleep has completed: final state and the value returned -/
+def Interval.tickEnd (iv : Interval) : TickFut → Interval × Nat
+  | .first => (iv.applyStmts (stmtsAfterAwait Compio.Gen.IntervalTick.firstBranch), iv.start)
+  | .periodic d => (iv.applyStmts (stmtsAfterAwait Compio.Gen.IntervalTick.periodicBranch), d)
+
+/-- what becomes of one `tick()` call -/
+inductive TickEv where
+  | complete     -- awaited to completion (which happens at or after the instant slept for)
+  | cancel       -- the future is dropped while suspended
+deriving DecidableEq, Repr
+
+/-- A sequence of `tick()` calls on one interval, each made at its own instant and either awaited to
+completion or cancelled; returns the final state and the instants delivered, in order. A panicking
+call ends the sequence. (`calls` = (instant of the call, outcome).) -/
+def Interval.runTicks (iv : Interval) : List (Nat × TickEv) → Interval × List Nat
+  | [] => (iv, [])
+  | (now, ev) :: rest =>
+    match iv.tickBegin now with
+    | none => (iv, [])
+    | some (iv1, fut, _) =>
+      match ev with
+      | .cancel => Interval.runTicks iv1 rest
+      | .complete =>
+        let (iv2, v) := iv1.tickEnd fut
+        let (iv3, vs) := Interval.runTicks iv2 rest
+        (iv3, v :: vs)
+
+/-- The only assumption on the instants of a call sequence: the clock never goes back, and a call
+awaited to completion returns no earlier than the instant it slept for (*never early*, section 2 of
+Props/C09). `floor` = earliest possible instant of the next call. -/
+def Interval.ValidCalls (iv : Interval) (floor : Nat) : List (Nat × TickEv) → Prop
+  | [] => True
+  | (now, ev) :: rest =>
+    floor ≤ now ∧
+      match iv.tickBegin now with
+      | none => True
+      | some (iv1, fut, d) =>
+        match ev with
+        | .cancel => Interval.ValidCalls iv1 now rest
+        | .complete => Interval.ValidCalls (iv1.tickEnd fut).1 (max now d) rest
 
 end Compio.Timer
